@@ -5,7 +5,7 @@ import subprocess
 
 TV = "Every instance of a catalogue + seeded-random family is run through the real crates (rebuilt from /repo's working tree with the hooks on); the recorded behaviour (NDJSON) is consumed event by event by a TLA+ trace specification, which evaluates the property's meaning-layer definitions on every state / cell / step; the design itself is model-checked exhaustively in a bounded model where one exists. Bounded, but with an oracle that is independent of the code and applied to everything observed."
 CLAIMED = {
- "C01": ("tlc-trace", "TLC trace validation (spec/TraceLR.tla): LR(1) certificate on the implementation's automaton, table cells re-derived with Yacc's rules, parses re-run on LRParse.tla, language oracle from derivations and the canonical LR(1) parser; bounded model MC_Pager.tla (every successor order -> table -> every input up to length L)", "5 C01"),
+ "C01": ("tlc-trace", "TLC trace validation (spec/TraceLR.tla): LR(1) certificate on the implementation's automaton, table cells re-derived with Yacc's rules, parses re-run on LRParse.tla, language oracle from derivations and the canonical LR(1) parser; bounded model MC_Pager.tla (every successor order -> table -> every input up to length L); the compile-time route: the parser a build over a used output directory leaves in place is the current grammar's (TraceCT.tla, PROP=C01)", "5 C01"),
  "C02": ("tlc-trace", "TLC replay of recorded Pager decisions (pick/exact/merge/new) through Pager.tla actions and gc; canonical LR(1) collection and parser as oracle; bounded model MC_Pager.tla (Pager under every successor order; LALR merging refuted)", "5 C02"),
  "C03": ("tlc-trace", "TLC re-derivation of every table cell and conflict list with StateTable.YaccCell; production precedence from the source's %prec; %expect rule via build histories on CTBuild.tla; bounded model MC_StateTable.tla (cell filling under every order of the candidate reductions = YaccCell)", "5 C03"),
  "C04": ("tlc-trace", "TLC trace validation of error positions against first-non-prefix (derivations) and the canonical LR(1) parser", "5 C04"),
@@ -13,7 +13,7 @@ CLAIMED = {
  "C06": ("tlc-trace", "TLC trace validation: reported repair set against the exhaustive minimum-cost reference search CPCTPlus.RefRepairs; ranking laws; bounded model MC_CPCT.tla (buckets, node merging, first-success cut-off and sweep, unfolding, ranking = RefRepairs for every erroneous input)", "5 C06"),
  "C07": ("tlc-trace", "TLC trace validation of the error-list / outcome laws on long erroneous inputs; non-returning parses observed through a killed child process; bounded model MC_Recover.tla (the parse loop with recovery as a state machine, every input up to length L, any minimum-cost repair applied)", "5 C07"),
  "C08": ("tlc-trace", "TLC trace validation: reduce callbacks (order, arguments, span, parameter) against LRParse.tla; generic-tree mode against action mode", "5 C08"),
- "C09": ("tlc-lexer", "TLC bounded model of Lexer.tla over every small definition x every match environment + trace validation of lrlex runs with the regex engine as environment (under the flags the document asks for: a family of flag documents, section and builder)", "5 C09"),
+ "C09": ("tlc-lexer", "TLC bounded model of Lexer.tla over every small definition x every match environment + trace validation of lrlex runs with the regex engine as environment (under the flags the document asks for: a family of flag documents, section and builder); the generated (compile-time) lexers of the start-state machines against the run-time lexer (TraceCTRT.tla, PROP=C09)", "5 C09"),
  "C10": ("tlc-src", "TLC evaluation of YaccSrc.GrammarOf(document) against every accessor of the parsed grammar, over seeded-random documents in several renderings (layout, comments, quoting, declaration order; Original / Grmtools / Eco); second route from the rendered text alone: YaccParse.tla (text -> AST) and AstGrammar.tla (AST -> grammar object) predicted exactly (TraceYaccParse.tla); grammar objects at the edge of a narrow index type (TraceWidth.tla, PROP=C10)", "5 C10"),
  "C11": ("tlc-src", "TLC evaluation of LexSrc.LexerDefOf(document) (rules, start states, targets, Unescape, spans) and of lexing under the flags the document puts in force; every CTLexerBuilder flag setter against the run-time lexer (TraceCTRT.tla); MarkMap.tla (header/settings map and merge operator: bounded model of the merge laws + trace validation of random operation sequences)", "5 C11"),
  "C12": ("tlc-src", "TLC evaluation of the outcome contract (Totality.tla) on every outcome of the section / Yacc / lex parsers over mutated specifications, each run in a killable child process; the three parsers transcribed (Header.tla, LexParse.tla, YaccParse.tla): trace specifications predict every recorded outcome exactly (AST / lexer definition / section, all spans, errors in order), bounded models check termination and the contract on every short text; the rendering of every reported error and warning by the diagnostics formatter predicted exactly (Diagnostics.tla / TraceDiag)", "5 C12"),
